@@ -561,7 +561,7 @@ pub fn check<P: Property>(p: &P, opt: &Options) -> i32 {
     let total = opt.runs.unwrap_or_else(|| p.runs(opt.tier));
     let started = Instant::now();
     let counter = AtomicU64::new(0);
-    let inflight: Mutex<BTreeMap<usize, (u64, Instant, std::sync::Arc<std::sync::atomic::AtomicBool>)>> = Mutex::new(BTreeMap::new());
+    let inflight: Mutex<BTreeMap<usize, (u64, Instant, std::sync::Arc<std::sync::atomic::AtomicU64>, String)>> = Mutex::new(BTreeMap::new());
     let done = std::sync::atomic::AtomicBool::new(false);
     let run_times = AtomicU64::new(0);
 
@@ -592,19 +592,49 @@ pub fn check<P: Property>(p: &P, opt: &Options) -> i32 {
 
     std::thread::scope(|scope| {
         // Watchdog: a net for a loop that never reaches a seam. Normal runs take micro- to
-        // milliseconds; this fires only after two minutes inside a single run.
+        // milliseconds. It measures the CPU time of the worker thread (/proc/self/task/<tid>/stat),
+        // not wall-clock time, so that a loaded machine cannot make it fire: five minutes of CPU
+        // inside one library operation is a violation (`hang-no-seam`); half an hour of CPU in the
+        // generator or oracle code of one run is a harness error (exit 2) and says nothing about
+        // the property. Where /proc cannot be read it falls back to wall-clock with twice the limits.
         scope.spawn(|| {
+            struct Seen {
+                index: u64,
+                op: u64,
+                last_cpu: f64,
+                op_cpu: f64,
+                harness_cpu: f64,
+            }
+            let mut seen: BTreeMap<usize, Seen> = BTreeMap::new();
+            let started = Instant::now();
+            // (for testing the watchdog itself: VERIF_WATCHDOG_DIV=60 turns the limits into 5 s and 30 s)
+            let div: f64 = std::env::var("VERIF_WATCHDOG_DIV").ok().and_then(|v| v.parse().ok()).unwrap_or(1.0);
             while !done.load(Ordering::Relaxed) {
                 std::thread::sleep(std::time::Duration::from_millis(500));
-                let g = inflight.lock().unwrap();
-                for (_, (index, t0, in_op)) in g.iter() {
-                    if t0.elapsed().as_secs() >= 120 && !in_op.load(Ordering::Relaxed) {
-                        // not inside a library operation: the generator or an oracle of the
-                        // harness is stuck, which says nothing about the property
-                        out(&format!("HARNESS-ERROR run {} spent more than 120 s outside any library operation (generator or oracle code); re-run with --only-run {}", index, index));
+                let snapshot: Vec<(usize, u64, String, u64)> = inflight.lock().unwrap().iter().map(|(w, (i, _, op, tid))| (*w, *i, tid.clone(), op.load(Ordering::Relaxed))).collect();
+                for (w, index, tid, op) in snapshot {
+                    let cpu = thread_cpu_seconds(&tid).unwrap_or_else(|| started.elapsed().as_secs_f64() / 2.0);
+                    let e = seen.entry(w).or_insert(Seen { index, op, last_cpu: cpu, op_cpu: 0.0, harness_cpu: 0.0 });
+                    if e.index != index {
+                        *e = Seen { index, op, last_cpu: cpu, op_cpu: 0.0, harness_cpu: 0.0 };
+                        continue;
+                    }
+                    let delta = (cpu - e.last_cpu).max(0.0);
+                    e.last_cpu = cpu;
+                    if e.op != op {
+                        e.op = op;
+                        e.op_cpu = 0.0;
+                    }
+                    if op % 2 == 1 {
+                        e.op_cpu += delta;
+                    } else {
+                        e.harness_cpu += delta;
+                    }
+                    if e.harness_cpu >= 1800.0 / div {
+                        out(&format!("HARNESS-ERROR run {} spent more than 1800 s of CPU outside any library operation (generator or oracle code); re-run with --only-run {}", index, index));
                         std::process::exit(2);
                     }
-                    if t0.elapsed().as_secs() >= 120 {
+                    if e.op_cpu >= 300.0 / div {
                         let dir = opt.verif_dir.join("replays");
                         let _ = std::fs::create_dir_all(&dir);
                         let path = dir.join(format!("{}-hang-no-seam-{}-{}.json", p.id(), opt.seed, index));
@@ -612,7 +642,7 @@ pub fn check<P: Property>(p: &P, opt: &Options) -> i32 {
                             &path,
                             json!({"engine":"engeom-sim/1","property":p.id(),"class":"hang-no-seam",
                                    "seed":opt.seed,"run":index,"tier":opt.tier.name(),
-                                   "note":"a single run exceeded 120 s of wall-clock without exhausting its tick budget; re-run with --only-run"}).to_string(),
+                                   "note":"one library operation used more than 300 s of CPU without reaching a seam or exhausting its tick budget; re-run with --only-run"}).to_string(),
                         );
                         out(&format!("VIOLATION property={} replay={}", p.id(), path.display()));
                         std::process::exit(1);
@@ -650,7 +680,8 @@ pub fn check<P: Property>(p: &P, opt: &Options) -> i32 {
                     viol_kinds: BTreeMap::new(),
                     samples: BTreeMap::new(),
                 };
-                let in_op_flag = std::sync::Arc::new(std::sync::atomic::AtomicBool::new(false));
+                let in_op_flag = std::sync::Arc::new(std::sync::atomic::AtomicU64::new(0));
+                let tid = std::fs::read_link("/proc/thread-self").ok().and_then(|p| p.file_name().map(|f| f.to_string_lossy().into_owned())).unwrap_or_default();
                 crate::env::IN_OP_SHARED.with(|f| *f.borrow_mut() = Some(in_op_flag.clone()));
                 loop {
                     let i = counter.fetch_add(1, Ordering::Relaxed);
@@ -658,7 +689,7 @@ pub fn check<P: Property>(p: &P, opt: &Options) -> i32 {
                         break;
                     }
                     let t0 = Instant::now();
-                    inflight.lock().unwrap().insert(w, (i, t0, in_op_flag.clone()));
+                    inflight.lock().unwrap().insert(w, (i, t0, in_op_flag.clone(), tid.clone()));
                     one_run(p, opt, i, &mut local);
                     if slow_debug && t0.elapsed().as_millis() > 500 {
                         eprintln!("slow run {} took {} ms", i, t0.elapsed().as_millis());
@@ -877,4 +908,18 @@ pub fn check<P: Property>(p: &P, opt: &Options) -> i32 {
         return 1;
     }
     0
+}
+
+/// CPU seconds (user + system) used so far by a thread of this process, from /proc.
+fn thread_cpu_seconds(tid: &str) -> Option<f64> {
+    if tid.is_empty() {
+        return None;
+    }
+    let stat = std::fs::read_to_string(format!("/proc/self/task/{}/stat", tid)).ok()?;
+    let rest = &stat[stat.rfind(')')? + 1..];
+    let fields: Vec<&str> = rest.split_whitespace().collect();
+    // after "pid (comm)": state is field 0, utime field 11, stime field 12; 100 ticks per second
+    let utime: f64 = fields.get(11)?.parse().ok()?;
+    let stime: f64 = fields.get(12)?.parse().ok()?;
+    Some((utime + stime) / 100.0)
 }
